@@ -35,7 +35,7 @@ type c13Case struct {
 	Ops   []c13Op `json:"ops"`
 }
 
-var c13Faults = []string{"", "", "", "unknown-state", "other-instance-state", "state-of-other-jar", "refuse", "no_id_token", "bad_sig", "alg_none", "hs256_secret", "wrong_iss", "wrong_aud", "expired", "no_username", "nonstring_username"}
+var c13Faults = []string{"", "", "", "unknown-state", "other-instance-state", "state-of-other-jar", "refuse", "no_id_token", "bad_sig", "alg_none", "hs256_secret", "wrong_iss", "wrong_aud", "expired", "expired_20s", "expired_5s", "no_username", "nonstring_username"}
 
 func genC13(t *rapid.T) c13Case {
 	c := c13Case{Store: rapid.SampledFrom([]string{"cookie", "file"}).Draw(t, "store")}
@@ -53,6 +53,8 @@ func genC13(t *rapid.T) c13Case {
 			op.Op = "mutate"
 			op.Kind = rapid.SampledFrom([]string{"subst", "subst", "trunc", "append"}).Draw(t, "mutKind")
 			op.Pos, op.Val = rapid.IntRange(0, 2000).Draw(t, "pos"), rapid.IntRange(0, 63).Draw(t, "val")
+		case k == 8 && rapid.Bool().Draw(t, "oldCookie"):
+			op.Op = "pre-login-cookie"
 		case k == 8:
 			op.Op = "foreign-cookie"
 		default:
@@ -64,6 +66,7 @@ func genC13(t *rapid.T) c13Case {
 }
 
 type c13Jar struct {
+	preLogin string // session cookie this jar held before its last successful login
 	b      *browser
 	auth   bool
 	user   string
@@ -143,6 +146,10 @@ func runC13(c c13Case) *Violation {
 				spec.Fault, good = op.Fault, false
 			}
 			code := w.IdP.NewCode(spec)
+			before := ""
+			if ck := sessionCookieOf(j.b, in); ck != nil {
+				before = ck.Value
+			}
 			cr, err := j.b.callback(in, useState, code)
 			if err != nil {
 				return viol("c13/http", "%s: %v", what, err)
@@ -150,6 +157,9 @@ func runC13(c c13Case) *Violation {
 			if good {
 				if cr.Code != http.StatusFound {
 					return viol("c13/good-login-refused", "%s: a valid callback was answered %d %s", what, cr.Code, shorten(cr.Body))
+				}
+				if !j.auth {
+					j.preLogin = before
 				}
 				j.auth, j.user, j.unspec, j.broken = true, op.User, false, false
 			}
@@ -184,6 +194,15 @@ func runC13(c c13Case) *Violation {
 			} else {
 				j.auth, j.broken = false, true
 			}
+		case "pre-login-cookie":
+			// the cookie this session held before it logged in describes an unauthenticated session
+			if j.preLogin == "" || c.Store == "file" {
+				break // file store: the cookie only names the server-side session, which the login did authenticate
+			}
+			old := j.preLogin
+			jars[op.Jar] = &c13Jar{b: newBrowser()}
+			j = jars[op.Jar]
+			setSessionCookie(j.b, in, old)
 		case "foreign-cookie":
 			// a session that is authenticated on another instance (other keys)
 			ob := newBrowser()
